@@ -290,7 +290,10 @@ func (ch *channel) addChunkData(rsd recSegData) {
 
 func (ch *channel) receivedSegData(rsd recSegData) {
 	log := slog.Default().With("chName", ch.name, "trName", rsd.name, "seqNr", rsd.seqNr)
-	if _, ok := ch.trDatas[rsd.name]; !ok {
+	ch.mu.RLock()
+	_, ok := ch.trDatas[rsd.name]
+	ch.mu.RUnlock()
+	if !ok {
 		log.Error("received segData for unknown track")
 		return
 	}
@@ -482,6 +485,8 @@ func (ch *channel) updateAndWriteMPD(log *slog.Logger) error {
 // deriveAndSetBitrates estimates bitrates for variants without bitrate information.
 // Only count unshifted or shifted segments, not both.
 func (ch *channel) deriveAndSetBitrates() {
+	ch.mu.RLock()
+	defer ch.mu.RUnlock()
 	for name, trd := range ch.trDatas {
 		if trd.init.Moov.Trak.Mdia.Minf.Stbl.Stsd.GetBtrt() == nil {
 			// Estimate bitrate from the segments available
@@ -517,6 +522,8 @@ func (ch *channel) deriveAndSetBitrates() {
 }
 
 func (ch *channel) deriveAndSetFrameRates(log *slog.Logger) {
+	ch.mu.RLock()
+	defer ch.mu.RUnlock()
 	for name, trd := range ch.trDatas {
 		sdb := ch.segTimesGen.segDataBuffers[name]
 		if trd.contentType != "video" {
